@@ -23,7 +23,7 @@ def run():
     by = collections.Counter((c["src"], c["entry"]) for c in cases.values())
     outs = collections.Counter(o[0] for c in cases.values() for o in c["outs"])
     texts = set(t for c in cases.values() for t in c["texts"])
-    hung = [i for i in cases if v[i][0] == "skip"]
+    hung = [i for i in cases if v[i][0] == "skip"]  # not run: the shard had too many hung cases
     cov = {
         "evaluations": sum(len(c["outs"]) for c in cases.values()),
         "distinct_nontrivial": len(texts),
@@ -33,7 +33,7 @@ def run():
         "cases": len(cases),
         "by_source_and_entry": {"%s/%s" % k: n for k, n in sorted(by.items())},
         "outcomes": dict(outs),
-        "hung_not_judged": len(hung),
+        "not_run": len(hung),
         "states": out.states, "transitions": out.transitions,
         "samples": [{"entry": c["entry"], "texts": c["texts"], "outs": c["outs"]} for c in list(cases.values())[::max(1, len(cases) // 3)][:3]],
     }
